@@ -188,6 +188,47 @@ def run(ctx):
     others = sorted({g.name for n, g in F.fns.items() for b, t in g.calls() if t.get("rpath") in rej} - {f.name for f in handlers})
     ctx.check(not others, "R16.4", "rejected-only-in-handlers", "KeysRejected is bumped only by the put handlers", detail=str(others))
 
+    # ---- R16.7 admission refusals are produced only where they are counted ---------------------------------
+    # the reasons admission refuses with = the variants of the rejection-reason enum built inside the admission
+    # functions (and their local callees); building one anywhere else hands a caller an admission refusal that no
+    # put handler sees, so KeysRejected misses it
+    def local_closure(roots):
+        seen, todo = set(), list(roots)
+        while todo:
+            n = todo.pop()
+            if n in seen or n not in F.fns:
+                continue
+            seen.add(n)
+            g = F.fns[n]
+            for b, t in g.calls():
+                if t["res"] == "item" and t.get("rlocal") and t.get("rpath") in F.fns:
+                    todo.append(t["rpath"])
+            for c in F.closures_of(g):
+                todo.append(c.name)
+        return seen
+    reason_adt = None
+    for name, adt in F.adts.items():
+        if name.endswith("command::CommandStatus") and adt["kind"] == "Enum":
+            for v in adt["variants"]:
+                if v["name"] == "Rejected" and v["fields"]:
+                    reason_adt = v["fields"][0]["ty"]
+    ctx.check(reason_adt in F.adts, "R16.7", "rejection-reason-type", "the reason type carried by CommandStatus::Rejected is discovered", detail=str(reason_adt))
+    if reason_adt in F.adts:
+        built = {}
+        for n, g in F.fns.items():
+            for b in g.live_blocks():
+                for st in g.blocks[b]["stmts"]:
+                    if st["k"] == "assign" and st["rv"]["k"] == "agg" and st["rv"].get("adt") == reason_adt:
+                        built.setdefault(st["rv"].get("variant", ""), []).append((g, b))
+        inside = local_closure(admit)
+        admission_reasons = sorted(v for v, sites in built.items() if any(g.name in inside for g, b in sites))
+        ctx.floor("R16.7", "reasons admission refuses with", len(admission_reasons), 2)
+        for v in admission_reasons:
+            outside = sorted({g.name for g, b in built[v] if g.name not in inside})
+            ctx.check(not outside, "R16.7", "%s|refusal-built-only-in-admission" % v,
+                      "the admission refusal %s is produced only inside the admission decision whose outcome the put handlers count" % v,
+                      detail="also built in %s" % outside)
+
     # ---- R16.5 hit ratio ---------------------------------------------------------------------------
     rh = {n for n, v in SM.read.items() if v == "CacheHits"}
     rm = {n for n, v in SM.read.items() if v == "CacheMisses"}
